@@ -2,6 +2,8 @@ package props
 
 import (
 	"fmt"
+	"go/ast"
+	"go/types"
 	"os"
 	"path/filepath"
 	"sort"
@@ -11,7 +13,8 @@ import (
 )
 
 // anchorFuncs returns every function declared in the Go files the property is
-// anchored in (properties.jsonl anchors.files; directories count recursively).
+// anchored in (properties.jsonl anchors.files; directories count recursively)
+// and the module functions they call, directly or through one intermediate.
 func anchorFuncs(c *an.Ctx) []*an.Func {
 	files := anchorFiles[c.Prop]
 	match := func(rel string) bool {
@@ -27,14 +30,42 @@ func anchorFuncs(c *an.Ctx) []*an.Func {
 		return false
 	}
 	var out []*an.Func
+	byObj := map[types.Object]*an.Func{}
+	in := map[*an.Func]bool{}
 	for _, d := range c.ModuleDirs() {
 		for _, f := range c.AllFuncs(d) {
+			byObj[f.Obj] = f
 			rel, err := filepath.Rel(c.Repo, c.Fset.Position(f.Decl.Pos()).Filename)
 			if err == nil && match(filepath.ToSlash(rel)) {
 				out = append(out, f)
+				in[f] = true
 			}
 		}
 	}
+	// plus the module functions the anchored code calls, two hops deep (helpers such as
+	// codegen.Walk that the anchored validation generator relies on)
+	frontier := append([]*an.Func(nil), out...)
+	for hop := 0; hop < 2; hop++ {
+		var next []*an.Func
+		for _, f := range frontier {
+			ast.Inspect(f.Decl.Body, func(nd ast.Node) bool {
+				call, ok := nd.(*ast.CallExpr)
+				if !ok {
+					return true
+				}
+				if callee := an.Callee(f.Pkg.TypesInfo, call); callee != nil {
+					if g := byObj[callee]; g != nil && !in[g] {
+						in[g] = true
+						out = append(out, g)
+						next = append(next, g)
+					}
+				}
+				return true
+			})
+		}
+		frontier = next
+	}
+	sort.Slice(out, func(i, j int) bool { return out[i].Name < out[j].Name })
 	return out
 }
 
@@ -75,7 +106,7 @@ func AnchorRules(c *an.Ctx) {
 			c.Failf(rule, h.Construct, h.Pos, "%s", h.Msg)
 		}
 	}
-	c.Okf(rule, "anchor files#control-flow lints", "%d functions of the anchor files: no stale search flag, stale per-iteration variable, inconsistent seen-set key, dropped recursion guard or in-place slice reuse", len(funcs))
+	c.Okf(rule, "anchor files#control-flow lints", "%d functions (anchor files and what they call, two hops): no stale search flag, stale per-iteration variable, inconsistent seen-set key, dropped recursion guard or in-place slice reuse", len(funcs))
 	c.Floor(rule, len(funcs), 10, "functions declared in the anchor files")
 	anchorParity(c, id+".L2", funcs)
 	anchorRoles(c, id+".L3", funcs)
@@ -267,6 +298,10 @@ func anchorRoles(c *an.Ctx, rule string, funcs []*an.Func) {
 		n, mis := an.RoleMisuses(f)
 		sites += n
 		for _, m := range mis {
+			if m.Has == "recomputed required flag" {
+				c.Failf(rule, fmt.Sprintf("%s#recomputed(%s)", f.Name, m.Arg), m.Pos, "the callback of codegen.WalkMappedAttr is told by the walker whether the attribute is required, yet asks the collection again with `%s`: it decides requiredness differently from the sibling callbacks (and from the server code) that use the walker's flag", m.Arg)
+				continue
+			}
 			c.Failf(rule, fmt.Sprintf("%s#%s(%s)", f.Name, m.Callee, m.Arg), m.Pos,
 				"the WalkMappedAttr callback passes its %s parameter %s to %s, which expects an %s: the two differ whenever the design maps an attribute to a differently named transport element (\"attr:Element\")", m.Has, m.Arg, m.Callee, m.Wants)
 		}
